@@ -136,9 +136,13 @@ class Exec(EvalMixin, CallMixin):
             st.env[gname] = SV(t, k)
             assume_typed(st, t, k)
         entry_env = dict(st.env)
+        self.entry = st.fork()
+        self.entry.pc = st.pc
         cx0 = Ctx(spec=True)
         for ax in uni.axioms:
             self.axioms.append(self.formula(ax, st, cx0, pol=-1))
+        self.axioms.append(seq_of_injective())
+        self.axioms.extend(congruence_helpers())
         for src in con.get("requires", []):
             name, src = src if isinstance(src, tuple) else (None, src)
             st.assume(self.formula(src, st, cx0, pol=-1))
@@ -182,6 +186,7 @@ class Exec(EvalMixin, CallMixin):
                     c = self.formula(src, self.pre_with_pc(s), Ctx(spec=True), entry_env, pol=1)
                     self.oblige("raises[%s]/only_if" % ex.exc, s, c, ex.line, kind="raises")
                 continue
+            self.oblige("cover/return-path", s, z3.BoolVal(False), ex.line, kind="cover-path")
             if con.get("ghost_exit"):
                 saved = s.env
                 self.run_ghost(con["ghost_exit"], s)
